@@ -36,6 +36,13 @@ def limit_case(draw, brokers):
             "worker": {"tasks_limit": draw(st.sampled_from([1, 2, 3, 1000])), "messages_limit": m,
                        "graceful": draw(st.sampled_from([25.0, 25.0, 0.3, 1.0]))},
             "jobs": jobs, "stop": "limit", "horizon": 45.0}
+    if draw(st.integers(0, 3)) == 0:
+        # some executions break down *after* the actor, outside it: the jobs ask for a stored result but the worker's connection
+        # has no results bucket broker.  They were started and are over: they count like any other
+        case["worker_buckets"] = False
+        for j in jobs:
+            if draw(st.booleans()):
+                j["store_result"] = True
     if broker != "mem":
         case["lat"] = draw(st.lists(st.sampled_from([0.0, 0.001, 0.003]), max_size=20))
     return case
